@@ -1236,6 +1236,8 @@ class MemoryCache:
         # If the object is too big to fit in the cache, return immediately
         obj_size = self._estimate_object_size(result)
         if obj_size > self.memory_cache_bytes:
+            # Whatever is cached for this call is superseded by the new result
+            self._evict(cache_key)
             return
 
         # "view busting"
